@@ -505,12 +505,12 @@ def rule_inside_strict(chk, prog):
 def run(chk):
     prog = chk.load()
     from .c04 import rule_astar
-    rule_astar(chk, prog)
-    rule_inside_strict(chk, prog)
-    rule_bends(chk, prog)
-    rule_dir_tables(chk, prog)
-    rule_heuristic(chk, prog)
-    rule_turn_prune(chk, prog)
-    rule_turn_prune_mirror(chk, prog)
-    rule_flags_mirror(chk, prog)
-    rule_endpoint_dirs(chk, prog)
+    chk.guard(rule_astar, chk, prog)
+    chk.guard(rule_inside_strict, chk, prog)
+    chk.guard(rule_bends, chk, prog)
+    chk.guard(rule_dir_tables, chk, prog)
+    chk.guard(rule_heuristic, chk, prog)
+    chk.guard(rule_turn_prune, chk, prog)
+    chk.guard(rule_turn_prune_mirror, chk, prog)
+    chk.guard(rule_flags_mirror, chk, prog)
+    chk.guard(rule_endpoint_dirs, chk, prog)
